@@ -30,6 +30,9 @@
 (*   Cancel    caller cancels the context of a logical request (between    *)
 (*             calls); CtxExit: next() returns ctx.Err() at the loop top   *)
 (*   PassRA    environment: time passes until no window is open            *)
+(*   Idle      environment: the client is idle for longer than every       *)
+(*             back-off delay in force (a sequence of operations with a    *)
+(*             gap: backoffCur > 0 and a stale backoffLast are left behind)*)
 (*   BackoffGet / BackoffSet / BackoffReset / Less: the functions of the   *)
 (*             same name (Less = sortHostsCmp)                             *)
 (*                                                                         *)
@@ -79,6 +82,8 @@ CONSTANTS Hosts,      \* host names (strings)
           MaxSeeks,   \* caller budget
           PrioAsc,    \* TRUE: as the code sorts; FALSE: as documented
           Conc,       \* throttle slots per host (config.Host.ReqConcurrent)
+          StoreAnchor,\* TRUE: as the code (backoffGet stores the release time also when no wait is needed);
+                      \* FALSE: seeded/C12-7 (the anchor goes stale while the host is idle)
           RelNR,      \* TRUE: as the code (throttleDone() before the ErrNotRetryable abort); FALSE: seeded/C17-4
           FixLeak,    \* TRUE: as the code since eb4e31c (next() returns the slot of the previous attempt first);
                       \* FALSE: the behaviour before that fix (finding C12-4), kept to explain seeded/fixrev-C12-4
@@ -113,7 +118,8 @@ Delay(c) == Min2(2 ^ c, conf.dmax)
 
 BackoffGet(x, t) ==            \* -> [now, h]
   IF x.cur > 0
-  THEN LET nx == Max2(t, x.last + Delay(x.cur)) IN [now |-> nx, h |-> [x EXCEPT !.last = nx]]
+  THEN LET nx == Max2(t, x.last + Delay(x.cur))
+       IN [now |-> nx, h |-> [x EXCEPT !.last = IF StoreAnchor \/ nx > t THEN nx ELSE @]]
   ELSE LET l == IF x.last # 0 /\ x.last < t THEN 0 ELSE x.last
        IN [now |-> Max2(t, l), h |-> [x EXCEPT !.last = l]]
 
@@ -375,7 +381,18 @@ PassRA ==
   /\ obs' = <<[ev |-> "note", what |-> "pass"]>>
   /\ UNCHANGED <<conf, hs, rs, call, nf, ns>>
 
-Next == \/ \E id \in Ids : Do(id) \/ ReadAll(id) \/ Close(id) \/ Cancel(id) \/ \E off \in 0..N : Seek(id, off)
+\* the client is not used for longer than any back-off delay in force (state left behind by earlier requests:
+\* backoffCur stays > 0, the anchor backoffLast lies in the past)
+Idle ==
+  /\ call = NoCall
+  /\ \E h \in Hosts : hs[h].cur > 0 /\ hs[h].last + Delay(hs[h].cur) >= now
+  /\ now' = 1 + CHOOSE t \in {hs[h].last + Delay(hs[h].cur) : h \in {g \in Hosts : hs[g].cur > 0}} :
+                   \A h \in {g \in Hosts : hs[g].cur > 0} : hs[h].last + Delay(hs[h].cur) <= t
+  /\ obs' = <<[ev |-> "note", what |-> "idle"]>>
+  /\ UNCHANGED <<conf, hs, rs, call, nf, ns>>
+
+Next == \/ Idle
+        \/ \E id \in Ids : Do(id) \/ ReadAll(id) \/ Close(id) \/ Cancel(id) \/ \E off \in 0..N : Seek(id, off)
         \/ LoopExit \/ Attempt \/ BodyFail \/ CtxExit \/ Consume \/ PassRA
 
 Spec == Init /\ [][Next]_vars /\ WF_vars(LoopExit \/ Attempt \/ BodyFail \/ CtxExit \/ Consume)
